@@ -46,7 +46,19 @@ func (p *Program) d(f *File, t *Type, depth int) []*Val {
 			out = append(out, &Val{Items: []Val{*ev[0]}})
 		}
 		if len(ev) > 1 {
-			out = append(out, &Val{Items: []Val{*ev[len(ev)-1], *ev[0]}})
+			last := ev[len(ev)-1]
+			// two distinct elements; a second singleton and (three or more values) a second
+			// pair, so that containers of equal size with different elements exist
+			out = append(out, &Val{Items: []Val{*last, *ev[0]}})
+			if depth < 2 {
+				out = append(out, &Val{Items: []Val{*last}})
+				if len(ev) > 2 {
+					out = append(out, &Val{Items: []Val{*ev[1], *ev[0]}})
+				}
+				if rt.K == List {
+					out = append(out, &Val{Items: []Val{*ev[0], *last}}) // same elements, other order
+				}
+			}
 		}
 		return out
 	case Map:
@@ -57,7 +69,13 @@ func (p *Program) d(f *File, t *Type, depth int) []*Val {
 			out = append(out, &Val{Items: []Val{*kv[0], *vv[len(vv)-1]}})
 		}
 		if len(kv) > 1 && len(vv) > 0 {
-			out = append(out, &Val{Items: []Val{*kv[len(kv)-1], *vv[0], *kv[0], *vv[len(vv)-1]}})
+			kl, vl := kv[len(kv)-1], vv[len(vv)-1]
+			out = append(out, &Val{Items: []Val{*kl, *vv[0], *kv[0], *vl}})
+			if depth < 2 && len(vv) > 1 {
+				out = append(out, &Val{Items: []Val{*kv[0], *vv[0]}})           // same key, other value
+				out = append(out, &Val{Items: []Val{*kl, *vl, *kv[0], *vv[0]}}) // same keys, values swapped
+				out = append(out, &Val{Items: []Val{*kl, *vl}})                 // other key
+			}
 		}
 		return out
 	}
